@@ -233,8 +233,9 @@ func c10Case(c *vc.Ctx, idx int) {
 		for _, memo := range []string{"", "x"} {
 			for _, tmo := range []string{"none", "last-height", "next-height", "later"} {
 				for _, sigv := range []string{"valid", "wrong-key", "wrong-sequence", "wrong-chain-id"} {
-					if !c.Thorough() && sigv != "valid" && (memo != "" || tmo != "none") {
-						continue // quick tier: signature variants on the plain envelope only
+					blockEnvelope := strings.HasSuffix(typ, "MsgNewEthBlock") && memo == "" && tmo == "next-height"
+					if !c.Thorough() && sigv != "valid" && (memo != "" || tmo != "none") && !blockEnvelope {
+						continue // quick tier: signature variants on the plain envelope only (and on the block message's own envelope)
 					}
 					sg, memo, tmo, sigv := sg, memo, tmo, sigv
 					txs = append(txs, func() (c10Tx, bool) { return build([]string{typ}, sg, nil, memo, tmo, sigv) })
